@@ -751,8 +751,11 @@ def build_world(cfg):  # noqa: PLR0915, C901
     csrv = FakeHttpServer('127.0.0.1', 9001, 'consumer')
     cons.start_all(shared_http_server=csrv)
     W.subs = list(cons.subscription_mgr.subscriptions.values())
-    cons.subscription_mgr._run = False     # no renew thread activity (the manager is not stopped: that would clear the list)
-    cons.subscription_mgr.join(timeout=5)
+    for _attempt in range(4):              # no renew thread activity (stop() would also clear the subscription list)
+        cons.subscription_mgr._run = False
+        cons.subscription_mgr.join(timeout=2.5)
+        if not cons.subscription_mgr.is_alive():
+            break
     for inst in csrv.dispatcher._instances.values():
         if isinstance(inst, MessageConverterMiddleware):
             instrument(inst)
